@@ -24,9 +24,9 @@ class C05(Prop):
             '(values that never occur) / boundary (cell counts T and T-1 around the public support threshold T of MST resp. Adaptive Grid).  '
             'Neighbours: remove first/last/random record, add random/duplicate/rarest-value record (MST, AIM, Adaptive Grid, MWEM bounded=False); '
             'replace one record in all / one / random attributes (MWEM bounded=True).  Parameters: epsilon in {0.5,1,5} x delta in {1e-9,1e-5,0.1}; '
-            'AIM rounds in {1..d-1 (abort family), d, d+1, 2d, 8[, default]}, workload pairs/triples/mixed/chain, weights 1 and 1+step, max_model_size in {80,1e-3,3e-4}; '
+            'AIM rounds in {1..d-1 (abort family), d, d+1, 2d, 3d, 12, 20[, default 16d]}, workload pairs/triples/mixed/chain, weights 1 and 1+step, max_model_size in {80,1e-3,3e-4}; '
             'MWEM rounds in {1,2,3,5,default}, noise gaussian/laplace, bounded flag, alpha in {0.9,0.5}, workload pairs/pairs+singles/triples/chain; '
-            'Adaptive Grid threshold in {0.5,2,5}, targets [] / [a] / [b], split None / [.1,.1,.8] / [1,2,3].  FactoredInference.iters capped at 25/60.  '
+            'Adaptive Grid threshold in {0.5,2,5}, targets [] / [a] / [b], split None / [.1,.1,.8] / [1,2,3].  FactoredInference.iters capped at 15/40.  '
             'non-trivial = D\' differs from D as a multiset of records and the domain has >= 2 attributes; distinct by the whole case')
     trusted_base = ['numpy RandomState (harness-owned outcome sequences)',
                     'zCDP facts used for pricing: Gaussian mechanism Delta_2^2/(2 sigma^2); bounded-range selection r^2/8; eps-DP => eps^2/2-zCDP; composition is additive',
